@@ -176,6 +176,15 @@ EndChecks(tr, i) ==
     IN /\ Report(cfg.alg = "adv" \/ tr.cfg.api \/ ~FeasibleCfg(cfg) \/ (e.exc.type = "" /\ ~e.budget), "L1", i, "C05.completes")
        /\ Report(cfg.alg = "adv" \/ tr.cfg.api \/ ~FeasibleCfg(cfg) \/ e.budget \/ e.t <= SerialBound * K, "L1", i, "C05.bound")
        /\ Report((\E o \in ObsNames : OCfg(o).rate > cfg.hotRate) => e.exc.type = "ValueError", "L1", i, "C07.rejects")
+       (* a run that was cut off in a state in which nothing will ever happen again  *)
+       (* (only the five actors alive, everything observed, nothing queued, nothing  *)
+       (* running, no tier move ever made): the last workflow is over, so the        *)
+       (* buffers are back at full free capacity                                     *)
+       /\ Report(~(e.budget /\ ~tr.cfg.api /\ e.exc.type = "" /\ X.nmove = 0 /\ X.crashed = ""
+                   /\ (\A p \in DOMAIN X.procs : p[1] \in {"Mon", "Tel", "Clu", "Sch", "Buf"})
+                   /\ (\A o \in ObsNames : X.obs[o].status = "FINISHED")
+                   /\ X.sch.queue = {} /\ X.cl.running = {})
+                 \/ End_C07(X), "L1", i, "C07.stuck")
        /\ IF e.completed /\ e.exc.type = "" /\ Len(tr.segs) = 0 /\ ~tr.cfg.api
           THEN /\ Report(End_C02(X), "L1", i, "C02.end")
                /\ Report(End_C04(X), "L1", i, "C04.end")
